@@ -54,6 +54,55 @@ pub fn handle_smembers(storage: &mut EngineModel, db: usize, parts: &[RespFrame]
 //@@ body
 //@@ end
 
+// ======================= SREM key member [member ...] =========================
+/// the members named by arguments 2..n (an argument that is not a bulk string is skipped, as the handler does)
+pub open spec fn named_upto(parts: Seq<RespFrame>, n: int) -> Set<Vec<u8>>
+    decreases n
+{ if n <= 2 { Set::empty() } else { match arg_vec(parts, n - 1) { Some(v) => named_upto(parts, n - 1).insert(v), None => named_upto(parts, n - 1) } } }
+pub open spec fn refs_set(v: Seq<&Vec<u8>>, n: int) -> Set<Vec<u8>>
+    decreases n
+{ if n <= 0 { Set::empty() } else { refs_set(v, n - 1).insert(*v[n - 1]) } }
+pub proof fn lemma_refs_set_push(v: Seq<&Vec<u8>>, x: &Vec<u8>, n: int)
+    requires 0 <= n <= v.len(),
+    ensures refs_set(v.push(x), n) == refs_set(v, n),
+    decreases n
+{ if n > 0 { lemma_refs_set_push(v, x, n - 1); assert(v.push(x)[n - 1] == v[n - 1]); } }
+/// SREM: the named members leave; the reply counts those that were there; an emptied set ceases to exist as a key (engine: unit srem of shard_sets)
+pub open spec fn spec_srem(ds: DS, db: int, k: Seq<u8>, ms: Set<Vec<u8>>) -> (RV, DS) {
+    match ds_get(ds, db, k) {
+        None => (RV::Int(0), ds),
+        Some(DV::Set(m)) => (RV::Int((m.len() - m.difference(ms).len()) as int), if m.difference(ms).len() == 0 { ds.remove((db, k)) } else { ds.insert((db, k), DV::Set(m.difference(ms))) }),
+        Some(_) => (RV::WrongType, ds),
+    }
+}
+impl EngineModel {
+    /// ASSUMED CONTRACT (engine.rs StorageEngine::srem — unit srem of shard_sets), members handed over as references
+    #[verifier::external_body]
+    pub fn srem(&mut self, db: usize, key: &[u8], members: &Vec<&Vec<u8>>) -> (r: Result<usize>)
+        ensures res_int(r, spec_srem(old(self).ds@, db as int, key@, refs_set(members@, members@.len() as int)).0),
+            final(self).ds@ == spec_srem(old(self).ds@, db as int, key@, refs_set(members@, members@.len() as int)).1,
+    { unimplemented!() }
+}
+//@@ unit handle_srem fn src/storage/commands/sets.rs handle_srem
+//@@   params drop "storage: &Arc<StorageEngine>" add "storage: &mut EngineModel"
+//@@   rewrite R3
+//@@   rewrite RT "let mut members = Vec::new();" "let mut members: Vec<&Vec<u8>> = Vec::new();"
+//@@   rewrite RFORC 0
+//@@   rewrite RT "RespFrame::BulkString(Some(bytes)) => members.push(bytes.as_ref())," "RespFrame::BulkString(Some(bytes)) => { members.push(bytes.as_ref()); proof { lemma_refs_set_push(m0, members@.last(), m0.len() as int); assert(members@ =~= m0.push(members@.last())); reveal_with_fuel(refs_set, 2); } },"
+//@@   loop 0
+//@@|     invariant 2 <= i__n <= i__end, i__end == parts@.len(), *storage == *old(storage),
+//@@|         refs_set(members@, members@.len() as int) == named_upto(parts@, i__n as int),
+//@@|     decreases i__end - i__n,
+//@@   loopstart 0
+//@@|     let ghost m0 = members@;
+//@@|     proof { reveal_with_fuel(named_upto, 2); }
+pub fn handle_srem(storage: &mut EngineModel, db: usize, parts: &[RespFrame]) -> (r: Result<RespFrame>)
+    ensures
+        (parts@.len() < 3 || arg(parts@, 1) is None) ==> cmd_refused(r, old(storage).ds@, final(storage).ds@),
+        parts@.len() >= 3 && arg(parts@, 1) is Some ==> cmd_ok(r, final(storage).ds@, spec_srem(old(storage).ds@, db as int, arg(parts@, 1)->Some_0, named_upto(parts@, parts@.len() as int))),
+//@@ body
+//@@ end
+
 // ======================= SPOP key [count] =========================
 /// the set stored at (db, k), absent = empty
 pub open spec fn set_left(ds: DS, db: int, k: Seq<u8>) -> Set<Vec<u8>> { match ds_get(ds, db, k) { Some(DV::Set(s)) => s, _ => Set::empty() } }
